@@ -352,3 +352,46 @@ Proof.
 Qed.
 
 End Shannon.
+
+(* ------------------------------------------------------------------ conditioning by weights *)
+(* setting the weight of a literal to 0 = conjoining the opposite literal (what the d-DNNF
+   evaluator does for evidence and for the query) *)
+Section Weights.
+Context {X : Type}.
+Variable eqb : X -> X -> bool.
+Hypothesis eqb_spec : forall x y, eqb x y = true <-> x = y.
+
+Lemma ssum_w_ext : forall (w w' : X -> bool -> Qc) vs psi a,
+    (forall x s, In x vs -> w x s = w' x s) -> ssum eqb w vs psi a = ssum eqb w' vs psi a.
+Proof.
+  intros w w'. induction vs as [|v r IH]; intros psi a H; simpl. reflexivity.
+  rewrite !(H v) by (left; auto). rewrite !(IH psi) by (intros; apply H; right; auto). reflexivity.
+Qed.
+
+Definition zero_lit (w : X -> bool -> Qc) (v : X) (s : bool) : X -> bool -> Qc :=
+  fun x t => if eqb x v && Bool.eqb t s then 0 else w x t.
+
+Lemma ssum_condition : forall w v b vs psi a0, NoDup vs -> In v vs ->
+    ssum eqb (zero_lit w v (negb b)) vs psi a0
+    = ssum eqb w vs (fun a => b2q (Bool.eqb (a v) b) * psi a) a0.
+Proof.
+  intros w v b. induction vs as [|x r IH]; intros psi a0 ND Hin. contradiction.
+  inversion ND as [|? ? Hx NDr]; subst. cbn [ssum].
+  destruct (eqb x v) eqn:E.
+  - apply eqb_spec in E. subst x.
+    assert (L : forall t, ssum eqb (zero_lit w v (negb b)) r psi (upd eqb a0 v t) = ssum eqb w r psi (upd eqb a0 v t)).
+    { intros t. apply ssum_w_ext. intros y s Hy. unfold zero_lit.
+      rewrite (eqb_neq eqb eqb_spec y v). reflexivity. intro; subst; contradiction. }
+    assert (R : forall t, ssum eqb w r (fun a => b2q (Bool.eqb (a v) b) * psi a) (upd eqb a0 v t)
+                          = b2q (Bool.eqb t b) * ssum eqb w r psi (upd eqb a0 v t)).
+    { intros t. rewrite <- ssum_scale. apply ssum_ext_out; auto.
+      intros a Ha. rewrite (Ha v Hx). now rewrite (upd_same eqb eqb_spec). }
+    rewrite !L, !R. unfold zero_lit. rewrite (eqb_refl eqb eqb_spec).
+    destruct b; cbn [negb Bool.eqb andb b2q]; ring.
+  - assert (Z : forall t, zero_lit w v (negb b) x t = w x t).
+    { intros t. unfold zero_lit. now rewrite E. }
+    rewrite !Z. destruct Hin as [->|Hin]. { rewrite (eqb_refl eqb eqb_spec) in E. discriminate. }
+    rewrite !IH; auto.
+Qed.
+
+End Weights.
